@@ -31,6 +31,19 @@ HAND = [
      ["type G722Payloader struct{}", "\to := make([]byte, len(payload))\n\tcopy(o, payload)\n\n\treturn append(out, o)"],
      ["type G722Payloader struct{ last []byte }", "\tif cap(p.last) < len(payload) {\n\t\tp.last = make([]byte, len(payload))\n\t}\n\to := p.last[:len(payload)]\n\tcopy(o, payload)\n\n\treturn append(out, o)"], ["C16", "C08"]),
     ("c18-estimate-in-receive-zone", "abssendtimeextension.go", "\treturn toTime(ntp)\n}", "\test := toTime(ntp)\n\t_, off := receive.Zone()\n\n\treturn est.Add(-time.Duration(off) * time.Second)\n}", ["C18"]),
+    # round-16 lessons (adversarial authors who were told what the generators vary)
+    ("c08-opus-empty-at-mtu-zero", "codecs/opus_packet.go", "func (p *OpusPayloader) Payload(_ uint16, payload []byte) [][]byte {\n\tif payload == nil {",
+     "func (p *OpusPayloader) Payload(mtu uint16, payload []byte) [][]byte {\n\tif payload == nil || mtu == 0 {", ["C08"]),
+    ("c03-raw-view-refuses-appbits", "header_extension.go", "if profile == headerExtensionProfileOneByte || profile == headerExtensionProfileTwoByte {",
+     "if profile == headerExtensionProfileOneByte || profile&0xFFF0 == headerExtensionProfileTwoByte {", ["C03"]),
+    ("c06-ntp-seconds-saturate", "abssendtimeextension.go", "\ts += 0x83AA7E80 // offset in seconds between unix epoch and ntp epoch\n",
+     "\ts += 0x83AA7E80 // offset in seconds between unix epoch and ntp epoch\n\tif s > 0xFFFFFFFF {\n\t\ts = 0xFFFFFFFF\n\t}\n", ["C06"]),
+    ("c17-offset-pointer-kept-when-equal", "abscapturetimeextension.go", "\t\tt.EstimatedCaptureClockOffset = &offset\n",
+     "\t\tif cur := t.EstimatedCaptureClockOffset; cur == nil || *cur != offset {\n\t\t\tt.EstimatedCaptureClockOffset = &offset\n\t\t}\n", ["C17"]),
+    ("c14-start-code-only-at-offset-zero", "codecs/h264_packet.go", "\tstart := bytes.Index(nals, naluStartCode)\n\toffset := 3\n",
+     "\tstart := -1\n\tswitch {\n\tcase bytes.HasPrefix(nals, naluStartCode):\n\t\tstart = 0\n\tcase bytes.HasPrefix(nals, annexbNALUStartCode):\n\t\tstart = 1\n\t}\n\toffset := 3\n", ["C14", "C10"]),
+    ("c20-repeated-id-not-detached", "packet.go", "\t\tfor i, e := range h.Extensions {\n\t\t\text[i] = e\n\t\t\tif e.payload != nil {",
+     "\t\tvar detached [256]bool\n\t\tfor i, e := range h.Extensions {\n\t\t\text[i] = e\n\t\t\tif e.payload != nil && !detached[e.id] {\n\t\t\t\tdetached[e.id] = true", ["C20"]),
     ("c01-drop-last-csrc", "packet.go", "for _, csrc := range h.CSRC {\n\t\tbinary.BigEndian.PutUint32(buf[n:n+4], csrc)",
      "for i, csrc := range h.CSRC {\n\t\tif i == 14 {\n\t\t\tcsrc = 0\n\t\t}\n\t\tbinary.BigEndian.PutUint32(buf[n:n+4], csrc)", ["C01"]),
     ("c01-ext-rounding", "packet.go", "\t\tsize += ((extSize + 3) / 4) * 4\n", "\t\tsize += ((extSize + 4) / 4) * 4\n", ["C01", "C04"]),
